@@ -42,9 +42,29 @@ def program(draw, max_nodes, ragged):
             "ragged": ragged}
 
 
+@st.composite
+def quoted_comment_case(draw):
+    """a quoted string followed by a trailing comment that contains a quote character (the comment must not matter)"""
+    q = draw(st.sampled_from(["'", '"']))
+    cq = draw(st.sampled_from(["'", '"']))
+    value = draw(st.sampled_from(["front", "New York", "a b", "x"]))
+    comment = draw(st.sampled_from([f"the panel called {cq}front{cq}", f"see {cq}manual{cq} for details", f"unit {cq}cm{cq}"]))
+    return {"qc": True, "q": q, "cq": cq, "value": value, "comment": comment, "indent": draw(st.integers(0, 2))}
+
+
 def strategies(tier):
     n = 10 if tier == "quick" else 18
-    return {"tree": (program(n, False), 2500, 60000), "ragged": (program(n, True), 500, 10000)}
+    return {"tree": (program(n, False), 2500, 60000), "ragged": (program(n, True), 500, 10000),
+            "quoted_comment": (quoted_comment_case(), 60, 600)}
+
+
+def _known_quote_in_comment(case, kind, detail):
+    # C13-K1: a quoted value extends to the LAST quote character of the line, also when that one stands in the trailing
+    # comment (the leniency towards unescaped inner quotes is pinned by the repository's own test_strings)
+    return bool(case.get("qc")) and case["q"] == case["cq"]
+
+
+KNOWN = {"C13-K1": _known_quote_in_comment}
 
 
 def parse(text):
@@ -170,7 +190,23 @@ def check(case):
     return v
 
 
+def _check_quoted_comment(case, v):
+    q, val = case["q"], case["value"]
+    text = " " * case["indent"] + f"name str = {q}{val}{q}   # {case['comment']}\nafter int = 1"
+    v.info = {"text": text}
+    v.nt(True)
+    v.label("quote_character_in_trailing_comment", "same_quote" if case["q"] == case["cq"] else "other_quote")
+    try:
+        tup, _typ = parse(text)
+    except Exception as e:
+        return v.fail("comment-changes-value", f"parse raised {e!r} for:\n{text}\n(without the comment the text gives name = {val!r})")
+    if tup != {"name": val, "after": 1}:
+        return v.fail("comment-changes-value", f"data = {tup!r}, expected name = {val!r} whatever the comment says:\n{text}")
+
+
 def _check(case, v):
+    if case.get("qc"):
+        return _check_quoted_comment(case, v)
     lines = case["lines"]
     text = D.render(lines)
     exp = D.expected(lines)
